@@ -24,6 +24,10 @@ def _noise(seed, n, lo, hi):
 def values(name, G, T, seed=0):
     """-> {geo: [T integer values]}"""
     out = {}
+    if name == 'E':      # panel B with geo 2 an exact copy of geo 1 (one market reported as two equal halves): exact ties
+        out = values('B', G, T, seed)
+        out[2] = list(out[1])
+        return out
     if name == 'A':      # common linear trend with small idiosyncratic noise; geo g about (g+1) times geo 0
         for g in range(G):
             nz = _noise(101 * seed + g + 1, T, 0, 9)
@@ -40,6 +44,19 @@ def values(name, G, T, seed=0):
             nz = _noise(977 * seed + 31 * g + 5, T, 0, amp[g % len(amp)])
             # geo 3 has a level shift half-way (structural break: makes the Brownian-bridge test fail for some designs)
             out[g] = [float(w[g % len(w)] * common[d] + nz[d] + (24 if (g == 3 and d >= T // 2) else 0)) for d in range(T)]
+    elif name == 'D':    # share DRIFT: geo 1 sold much more in the first half, so shares over ALL dates differ from the
+        # shares seen in a short recent window (volume / share constraints are documented on all supplied dates)
+        w = [6, 5, 3, 2, 4, 1]
+        amp = [2, 3, 2, 9, 3, 2]
+        steps = _noise(23 + seed, T, -3, 4)
+        common, c = [], 18
+        for d in range(T):
+            c = max(4, c + steps[d])
+            common.append(c)
+        for g in range(G):
+            nz = _noise(613 * seed + 17 * g + 3, T, 0, amp[g % len(amp)])
+            out[g] = [float(w[g % len(w)] * common[d] + nz[d] + (150 - 20 * d if (g == 1 and d < T // 2) else 0)
+                            + (40 if (g == 2 and d >= T // 2) else 0)) for d in range(T)]
     elif name == 'C':    # seed-derived panel (VERIF_SEED != 0): random walk with random weights
         ws = _noise(seed + 3, G, 1, 9)
         steps = _noise(seed + 11, T, -4, 5)
@@ -59,6 +76,9 @@ def rows(p):
     """Explicit long-format rows of a panel description, in the presentation order of its variant."""
     G, T = p['G'], p['T']
     vals = values(p['name'], G, T, p.get('seed', 0))
+    if p.get('scale_pow'):      # responses in another unit: every value times 2^k (exact in floating point)
+        f = 2.0 ** p['scale_pow']
+        vals = {g: [v * f for v in vs] for g, vs in vals.items()}
     dates = [(START + datetime.timedelta(days=d)).isoformat() for d in range(T)]
     variant = p.get('variant', 'plain')
     out = []
